@@ -591,8 +591,8 @@ func registerC15() {
 		},
 		Components: libComponents,
 		Workloads: []*Workload{
-			mk("histories", map[string]int{"quick": 60000, "thorough": 5000000}, 16),
-			mk("long-histories", map[string]int{"quick": 5000, "thorough": 400000}, 60),
+			mk("histories", map[string]int{"quick": 300000, "thorough": 8000000}, 16),
+			mk("long-histories", map[string]int{"quick": 25000, "thorough": 600000}, 60),
 		},
 	})
 }
